@@ -19,20 +19,20 @@ MODELLED_NOT_VERIFIED = [
     "to the code by the correspondence on generated trees; the four integer functions are regenerated from source (Gen/PyBits.lean)",
     "C01: the mutable Bipartition object protocol (is_mutable, hashing by split mask) and the edge-map caches are not modelled",
 ]
-EXPLANATION = ("Theorems over all masks/trees. About the driver's own definitions: encode_pairs_spec (every pair of `encode` is a node's "
-               "leafset mask and its rooted / LSB-normalised split), encode_rooted_iff_topology (equal split sets of `encode` <-> same topology up "
-               "to child order and unifurcations, any flags), encode_unrooted_eq_usplits (`encode`'s unrooted split set = {0} + usplits of the "
-               "encoded tree), encode_unrooted_invariant / _flags_invariant (child order, unifurcations, basal collapse and flags do not change "
-               "the unrooted split set), encode_none_eq_unrooted, build_rooted_clades (`build` = prep filter + greedy insertion into the star, "
-               "fed the clades of a tree in any order/multiplicity, has exactly the star's clades plus the tree's non-trivial clades), "
-               "rebuild_rooted_topology (the tree `build` makes of `encode`'s rooted split masks in any order/multiplicity is Iso to the encoded tree "
-               "with unifurcations suppressed, and has no unifurcation itself; members = the tree's taxa, all-bits mask may be larger), "
-               "encode_unrooted_determines_topology_partial (equal unrooted split sets of `encode` => Iso, for trees seeded next to the lowest leaf), "
-               "is_trivial_sets / is_compatible_sets / is_compatible_four_quadrants / is_nested_sets (the regenerated predicates as statements "
-               "about taxon sets). Underneath: refinement of the generated integer functions, mask_spec, split_spec, norm_sets, "
-               "ins_spec/build_spec. Still partial: unrooted sufficiency only for trees seeded next to the lowest leaf "
-               "plus one-inversion invariance (composition of inversions unproved); unrooted rebuild "
-               "(prep's complement-on-bit-0 path) and treeCompatible are tied by the correspondence only.")
+EXPLANATION = ("Theorems over all masks/trees, about the driver's own definitions. (a,b) encode_pairs_spec: every pair of `encode` is a node's "
+               "leafset mask and its rooted / LSB-normalised split. (c) rooted: encode_rooted_iff_topology (equal split sets <-> same topology up "
+               "to child order and unifurcations, any flags). (c) unrooted, every seed position: encode_unrooted_iff_topology (equal split sets "
+               "of `encode` <-> Iso of the canonical re-seedings `canonU` at the lowest leaf, >= 3 taxa; canonU is executable, printed by the driver "
+               "and compared with the oracle's graph canonical form), backed by Bridge.canonU_spec (every well-formed tree reaches the canonical "
+               "seed position by edge inversions + suppression, each keeping the normalised split set), encode_unrooted_invariant_under_inversion, "
+               "encode_unrooted_invariant / _flags_invariant, encode_unrooted_eq_usplits, encode_none_eq_unrooted. (d) rebuild_rooted_topology and "
+               "rebuild_unrooted_topology (the tree `build` makes of `encode`'s split masks in any order/multiplicity is the encoded topology, has "
+               "no unifurcation; members = the tree's taxa, all-bits mask may be larger; the unrooted head filter's complement-on-bit-0 path "
+               "provably never fires on an encoding), build_rooted_clades for namespaces with extra members. (e) is_trivial_sets, "
+               "is_compatible_sets, is_compatible_four_quadrants, is_nested_sets, tree_compatible_rooted_sets / _unrooted_sets "
+               "(Tree.is_compatible_with_bipartition = compatibility with the bipartition of EVERY edge). Underneath: refinement of the generated "
+               "integer functions, mask_spec, split_spec, norm_sets, ins_spec/build_spec. Not proved: unrooted statements for < 3 taxa (one "
+               "topology), unrooted rebuild over namespaces with extra members (correspondence + oracle only).")
 
 
 # ------------------------------------------------------------------ independent oracles
@@ -130,6 +130,32 @@ def canon_rooted(tree, extras=()):
 def canon_unrooted(tree, extras=()):
     adj, bit, _ = with_extras(tree, extras, True)
     return canon_unrooted_g(adj, bit)
+
+
+def ucanon_py(tree):
+    """the unrooted topology as the model prints it (driver op `ucanon`): seeded at the node the lowest leaf hangs from,
+    degree-2 vertices suppressed, children sorted as strings - computed on the adjacency graph, rooted AT the lowest leaf"""
+    adj, bit = graph(tree)
+    if not bit:
+        return None
+    low = min(bit, key=lambda v: bit[v])
+
+    def form(v, parent):
+        forms = [str(bit[v])] if v in bit else []
+        for w in adj[v]:
+            if w != parent:
+                f = form(w, v)
+                if f is not None:
+                    forms.append(f)
+        if not forms:
+            return None
+        return forms[0] if len(forms) == 1 else "(" + ",".join(sorted(forms)) + ")"
+    rest = [f for f in (form(w, low) for w in adj[low]) if f is not None]
+    k = str(bit[low])
+    if not rest:
+        return k
+    parts = split_top(rest[0]) if rest[0].startswith("(") else [rest[0]]
+    return "(" + ",".join(sorted(parts + [k])) + ")"
 
 
 def split_top(s):
@@ -509,6 +535,12 @@ def judge_pair(ctx, dendropy, case, pending):
     canon = canon_rooted if t1.is_rooted else canon_unrooted
     c1, c2 = canon(t1), canon(t2)
     nt = nontrivial_tree(t1)
+    if not t1.is_rooted:
+        # the model's notion of "same unrooted topology" (canonU, the one the theorems speak about) against the oracle's
+        for key, t in (("tree", t1), ("tree2", t2)):
+            u = ucanon_py(t)
+            if u is not None and all(nd.taxon is not None for nd in tu.walk(t.seed_node) if not nd._child_nodes):
+                pending.append(("ucanon " + " ".join(case[key]), {"op": "ucanon", "tree": case[key], "rooted": case["rooted"], "ns": case["ns"]}, u))
     s1 = split_set(t1, case.get("flags1", [True, True]))
     s2 = split_set(t2, case.get("flags2", [True, True]))
     ctx.case(["pair", case["tree"], case["tree2"], case["rooted"]], nt, sample=case, kind="pair-same" if c1 == c2 else "pair-diff")
@@ -636,6 +668,12 @@ def judge_compat(ctx, dendropy, case, pending):
     pending.append(("compat %s %d %s" % (case["rooted"], b2.split_bitmask, " ".join(case["tree"])), case, "1" if got else "0"))
 
 
+def judge_ucanon(ctx, dendropy, case, pending):
+    """the model's canonical unrooted form of one tree against the oracle's graph-based one (replay of a correspondence line)"""
+    t, _ = tree_for_case(dendropy, case)
+    pending.append(("ucanon " + " ".join(case["tree"]), case, ucanon_py(t)))
+
+
 def judge_stale(ctx, dendropy, case, pending):
     """query -> edit through the public API -> query again with default arguments: the answer must describe the tree as it
     stands, not the encoding left behind by the earlier calls"""
@@ -665,7 +703,7 @@ def judge_stale(ctx, dendropy, case, pending):
 
 JUDGES = {"pyint": judge_pyint, "pred": judge_pred, "encode": judge_encode, "reencode": judge_reencode, "pair": judge_pair,
           "rebuild": judge_rebuild, "build": judge_build, "treepreds": judge_treepreds, "stalepred": judge_stale,
-          "compat": judge_compat, "lsb": judge_bitfunction, "normalize": judge_bitfunction}
+          "compat": judge_compat, "ucanon": judge_ucanon, "lsb": judge_bitfunction, "normalize": judge_bitfunction}
 
 
 def judge(ctx, dendropy, case, pending):
